@@ -122,6 +122,9 @@ func vp9HeaderBits(r *hx.Rand) ([]byte, int) {
 	return w.b, w.n
 }
 
+// thorough tier: many more cases, most of them with smaller frames (bounds the case files)
+var thorough bool
+
 func genFrame(r *hx.Rand, max, _ int) codec.Frame {
 	h, hbits := vp9HeaderBits(r)
 	c := max - 3 // bytes per packet after the 3-byte descriptor (11 on the first packet of a key frame)
@@ -145,8 +148,12 @@ func genFrame(r *hx.Rand, max, _ int) codec.Frame {
 	if n > 40*c+8 {
 		n = r.Range(1, 40*c+8)
 	}
-	if n > 20000 {
-		n = 20000
+	limit := 20000
+	if thorough && r.Intn(8) != 0 {
+		limit = 3000
+	}
+	if n > limit {
+		n = r.Range(1, limit)
 	}
 	if n < len(h) {
 		n = len(h)
@@ -255,6 +262,8 @@ var Format = &codec.Format{
 func main() {
 	ctx := hx.Start("vp9")
 	defer ctx.Finish()
+	thorough = ctx.Thorough
+	ctx.Sample("rtpvp9: key / non-key / show-existing frames with valid VP9 headers, 32 initial picture IDs around the 15-bit wrap")
 	if lines := ctx.ReplayLines(); lines != nil {
 		replay(ctx, lines)
 		return
